@@ -9,6 +9,14 @@
 (* "some line element of arc x" (code LineEl(x)), or an element that does not exist (codes 901..999; such a   *)
 (* LOOSE hop is removed by the route-list clean-up before anything else).  A batch is a list of requests plus *)
 (* synchronisation groups (lists of request indices that must be pairwise link-disjoint).                     *)
+(* A synchronisation vector of a service file states a diversity - 'link', 'node' or 'node link'.  All three  *)
+(* are judged alike: C12 speaks of every synchronisation group, and routes that share a link share its two    *)
+(* end nodes, so node diversity cannot be weaker than link diversity.  ('srlg' alone is not generated: the     *)
+(* topology carries no risk groups, what it demands cannot be decided.)  In the same spirit, how a batch is    *)
+(* written - route objects with indices starting at 0 or elsewhere and listed in any order, a line hop named   *)
+(* by one element of its arc or element by element, a service file or PathRequest objects built through the   *)
+(* API - and what was computed before in the same process are no part of a batch: the answer to a batch is a  *)
+(* function of the graph and of the batch alone.                                                              *)
 (*                                                                                                            *)
 (* Three layers, all pure TLA+ and independent of networkx (1 and 2 here, 3 in RoutingModel):                *)
 (*   1. the ORACLE  - simple paths by bounded recursion, include satisfaction as ordered subsequence,         *)
